@@ -4084,3 +4084,58 @@ func ruleCMapNotLineBased(c *eng.Ctx) {
 		c.Ok(R, "font#cmap-lines", token.NoPos, "the CMap parser does not split its input into lines")
 	}
 }
+
+// ---------------------------------------------------------------------------------------------------------------
+// R7.12 every font subtype that can carry a ToUnicode CMap is registered.
+
+// R7.12 [C07]
+func ruleEveryFontSubtypeRegistered(c *eng.Ctx) {
+	const R = "R7.12-EVERY-FONT-SUBTYPE-REGISTERED"
+	c.Rule(R, "the subtype dispatch of text.(*Extractor).RegisterFontsFromResources (and its helpers) names all five font subtypes of ISO 32000-1 table 110 that show text: Type1, MMType1, Type3, TrueType and Type0. A font whose subtype has no branch is never registered, and its strings are decoded by the fallback font as raw bytes although its ToUnicode CMap and /Encoding say what they mean", 1, 0)
+	fnR := c.P.Func("text.(*Extractor).RegisterFontsFromResources")
+	if fnR == nil {
+		c.Undec(R, "text.(*Extractor).RegisterFontsFromResources", token.NoPos, "anchor not found")
+		return
+	}
+	labels := map[string]bool{}
+	for _, h := range eng.Cluster(fnR, 2) {
+		eng.Instrs(h, true, func(in ssa.Instruction) {
+			if b, ok := in.(*ssa.BinOp); ok && b.Op == token.EQL {
+				for _, v := range []ssa.Value{b.X, b.Y} {
+					if cs, ok := eng.ConstString(v); ok {
+						labels[cs] = true
+					}
+				}
+			}
+			// a table of constructors keyed by subtype
+			if mu, ok := in.(*ssa.MapUpdate); ok {
+				if cs, ok := eng.ConstString(mu.Key); ok {
+					labels[cs] = true
+				}
+			}
+		})
+	}
+	// package-level tables keyed by subtype that the cluster looks up
+	for _, h := range eng.Cluster(fnR, 2) {
+		eng.Instrs(h, true, func(in ssa.Instruction) {
+			if lk, ok := in.(*ssa.Lookup); ok {
+				if u, ok := lk.X.(*ssa.UnOp); ok {
+					if g, ok := u.X.(*ssa.Global); ok {
+						if strs, _, ok := eng.GlobalMapEntries(g); ok {
+							for k := range strs {
+								labels[k] = true
+							}
+						}
+					}
+				}
+			}
+		})
+	}
+	var missing []string
+	for _, w := range []string{"Type1", "MMType1", "Type3", "TrueType", "Type0"} {
+		if !labels[w] {
+			missing = append(missing, w)
+		}
+	}
+	c.Check(len(missing) == 0, R, "text.(*Extractor).RegisterFontsFromResources#subtypes", fnR.Pos(), "all five text-showing font subtypes have a branch", "font subtype(s) "+strings.Join(missing, ", ")+" have no branch: such fonts are never registered and their text comes out as raw character codes, ToUnicode or not")
+}
